@@ -1,4 +1,4 @@
-import RedisGoModel.Props.C08ReadyRun
+import RedisGoModel.Props.C08ReadyMono
 import RedisGoModel.Generated.ReadyArm
 /-! # C08 — persist before externalise, on the loop model `Cluster/ReadyLoop.lean` (used by C07 / C15)
 
@@ -282,6 +282,50 @@ theorem persist_before_externalise_cfg (c : Cfg) (hc : c.arm = theArm) : Persist
 /-- the node never ends up unable to start -/
 theorem never_down (c : Cfg) (hc : c.arm = theArm) (evs : List Ev) (hconf : Conforms c {} evs) : (run c {} evs).down = false :=
   (inv_run hc evs {} (inv_init _) hconf).down
+
+/-! ## restart_no_regress along a run -/
+
+theorem K_init : K ({} : State) := by
+  show chainOk {} [Rec.snap 0 0]
+  simp [chainOk]
+
+/-- **the persisted hard state never regresses**: along every conforming run — crashes (any prefix of the unsynced tail surviving) and
+    restarts included — the hard state of the synced WAL records (`durable`: what every later restart reads at least) only moves forward:
+    the term and the commit index do not decrease and a vote cast in a term is kept while that term lasts -/
+theorem persisted_hard_state_never_regresses (c : Cfg) (hc : c.arm = theArm) (e1 e2 : List Ev) (hconf : Conforms c {} (e1 ++ e2)) :
+    HsMono (durable (run c {} e1)) (durable (run c {} (e1 ++ e2))) := by
+  obtain ⟨h1, h2⟩ := conforms_append c e1 e2 {} hconf
+  obtain ⟨hi, hk, _⟩ := mono_run hc e1 {} (inv_init c) K_init h1
+  rw [run_append]
+  exact (mono_run hc e2 _ hi hk h2).2.2
+
+/-- a restarted node starts from exactly the hard state that is durable at that moment -/
+theorem restart_reads_durable (s : State) (k : Nat) (h : Safe s) : (crashRestart s k).node.hs = durable (crashRestart s k) := by
+  obtain ⟨v, hv, _⟩ := h k
+  have hvr : replayRecs (s.disk.image k).synced s.disk.files = some v := hv
+  unfold crashRestart durable
+  rw [hv]
+  exact (replayRecs_some hvr).1
+
+/-- **restart_no_regress**: of two restarts in one conforming run, the later one never starts with a smaller term, a smaller commit index,
+    or — in the same term — another vote than the earlier one -/
+theorem restart_no_regress_run (c : Cfg) (hc : c.arm = theArm) (e1 e2 : List Ev) (k1 k2 : Nat)
+    (hconf : Conforms c {} ((e1 ++ [.crash k1]) ++ (e2 ++ [.crash k2]))) :
+    HsMono (run c {} (e1 ++ [.crash k1])).node.hs (run c {} ((e1 ++ [.crash k1]) ++ (e2 ++ [.crash k2]))).node.hs := by
+  have hm := persisted_hard_state_never_regresses c hc _ _ hconf
+  have key : ∀ (e : List Ev) (k : Nat), Conforms c {} (e ++ [.crash k]) → (run c {} (e ++ [.crash k])).node.hs = durable (run c {} (e ++ [.crash k])) := by
+    intro e k hcf
+    obtain ⟨h1, _⟩ := conforms_append c e [.crash k] {} hcf
+    have hi := inv_run hc e {} (inv_init c) h1
+    rw [run_append]
+    show (step c (run c {} e) (.crash k)).node.hs = durable (step c (run c {} e) (.crash k))
+    simp only [step, hi.down, Bool.false_eq_true, ↓reduceIte]
+    exact restart_reads_durable _ k hi.safe
+  rw [key e1 k1 (conforms_append c _ _ {} hconf).1]
+  have : (e1 ++ [Ev.crash k1]) ++ (e2 ++ [Ev.crash k2]) = ((e1 ++ [Ev.crash k1]) ++ e2) ++ [Ev.crash k2] := by simp
+  rw [this] at hconf hm ⊢
+  rw [key _ k2 hconf]
+  exact hm
 
 theorem persistBeforeExternalise_false_send_first : ¬ PersistBeforeExternalise { arm := sendFirstArm } := by
   intro h
